@@ -676,6 +676,9 @@ func (fx *Fx) binop(st *State, op token.Token, a, b Val, text string, spec bool)
 		case b.S == SRef && a.S != SRef && a.X != "nil":
 			eq = app("=", fx.box(st, a, b.T).X, b.X)
 		default:
+			if a.S != "" && b.S != "" && a.S != b.S && a.X != "nil" && b.X != "nil" {
+				panic(unsupported(fmt.Sprintf("comparison %s of values of different types (%s and %s): the contract no longer matches the code", text, a.S, b.S)))
+			}
 			eq = app("=", a.X, b.X)
 			if a.X == b.X {
 				eq = "true"
